@@ -22,9 +22,14 @@ class Sim(object):
         # spec["backward"]: the observed run is the inner run of backward_simulate (dependencies reversed; the logs
         # are left in the time of that run) - only for oracles that do not look at dependencies
         self.backward = bool(spec.get("backward")) and not spec.get("warm")
+        # spec["unit_time"] = u > 1: one step covers u time units (cold forward runs only). Steps, snapshots and logs
+        # are indexed by step; absence lists are in time units: step s is at time s*u.
+        self.u = int(spec.get("unit_time", 1)) if not (spec.get("warm") or self.backward) else 1
         try:
             if self.backward:
                 S.backward_simulate(self.p, self.opts, reverse_log_information=False)
+            elif self.u != 1:
+                S.simulate(self.p, self.opts, unit_time=self.u)
             else:
                 S.simulate(self.p, self.opts, **getattr(self.h, "sim_extra", {}))
         finally:
@@ -32,7 +37,7 @@ class Sim(object):
         # steps are indexed by time: an appended run is preceded by one empty entry per step of the earlier run
         self.steps = [{} for _ in range(self.t0)] + self.obs.steps
         self.N = len(self.p.cost_list)
-        self.absn = set(self.opts.get("abs", []))
+        self.absn = set(a // self.u for a in self.opts.get("abs", []) if a % self.u == 0)  # project-wide absence STEPS
         self.tasks = spec["tasks"]
         self.n = len(self.tasks)
         self.preds = gen.preds(spec)
@@ -58,10 +63,10 @@ class Sim(object):
         return self.spec["facs"][fi]["skills"].get(str(ti))
 
     def worker_absent(self, wi, k):
-        return k in self.absn or k in self.spec["workers"][wi]["abs"]
+        return k in self.absn or k * self.u in self.spec["workers"][wi]["abs"]
 
     def fac_absent(self, fi, k):
-        return k in self.absn or k in self.spec["facs"][fi]["abs"]
+        return k in self.absn or k * self.u in self.spec["facs"][fi]["abs"]
 
     def worker_eligible(self, wi, ti, k):
         """Static eligibility of worker wi for a *new* allocation to task ti at step k (C04)."""
@@ -746,7 +751,7 @@ def check_c10a(sim, res):
             continue
         for kind, objs, specs in (("worker", sim.h.workers, spec["workers"]), ("facility", sim.h.facs, spec["facs"])):
             for i, r in enumerate(objs):
-                if k in specs[i]["abs"]:
+                if k * sim.u in specs[i]["abs"]:
                     if r.cost_list[k] != 0.0:
                         res.fail("C10.absent_resource_charged", "%s %s charged %r while individually absent at step %d" % (kind, r.ID, r.cost_list[k], k), sig=kind)
                     if int(r.state_record_list[k]) == S.R_WORKING:
